@@ -650,9 +650,19 @@ def build(ov):
                 hdr, _, names = spec.partition(' :: ')
                 hdr = hdr.strip()
                 names = names.split()
+                # `impl<..> X<..> where .. => impl X`: the methods are re-homed under another impl header (N8: the generic
+                # parameters / bounds the extracted methods do not depend on are instantiated by the overlay's stand-in type)
+                emit_hdr = None
+                if ' => ' in hdr:
+                    hdr, _, emit_hdr = hdr.partition(' => ')
+                    hdr, emit_hdr = hdr.strip(), emit_hdr.strip()
                 blocks = S.find_impls(hdr)
                 if not blocks:
                     raise CutError('impl block not found: ' + hdr)
+                if emit_hdr:
+                    b.rewrites_applied.append(dict(rule='N8', item=hdr, count=1, pattern=hdr, replacement=emit_hdr,
+                                                   note='impl header replaced: methods re-homed under the stand-in type of the overlay'))
+                    hdr = emit_hdr
                 ty = re.sub(r'^impl(<[^>]*>)?\s*', '', hdr)
                 ty = ty.split(' for ')[-1]
                 ty = re.sub(r'<.*$', '', ty).strip()
